@@ -117,6 +117,9 @@ func implC10(line string) (out string) {
 		case strings.HasPrefix(st, "rS:"):
 			vm.Set("R", unhex(st[3:]))
 			src = "S.replace(re, R)"
+		case strings.HasPrefix(st, "rK:"): // a function replacer returning a constant string
+			vm.Set("R", unhex(st[3:]))
+			src = "S.replace(re, function(){ return R })"
 		case st == "p:u":
 			src = "S.split(re)"
 		case strings.HasPrefix(st, "p:"):
@@ -387,6 +390,10 @@ func (g *gen) step() string {
 	case 7:
 		return "rS:" + hexTok(g.pick(repls))
 	case 8:
+		if g.r.Chance(50) {
+			// the result of a function is used verbatim: same `$` alphabet as the string replacements
+			return "rK:" + hexTok(g.pick(repls))
+		}
 		return "rF"
 	case 9:
 		if g.r.Chance(50) {
